@@ -190,9 +190,31 @@ class Ctx:
         with open(path) as f:
             src = f.read()
         names = theorem_names(src)
-        rc, out, err, dt = self.coqc(relpath, timeout)
         self.checker_cmds.append(
             'cd /verif/coq && coqc ' + ' '.join(COQ_ARGS[:12]) + ' ' + relpath)
+        # make-like freshness: a compiled file is reused when its source and
+        # every compiled file it imports are unchanged since it was checked
+        # (so that concurrent runs on one tree do not rewrite each other's
+        # .vo files); anything regenerated from /repo that differs, or any
+        # edited proof, invalidates it and everything built on it
+        key = self._fresh_key(relpath, src)
+        cpath = os.path.join(COQ, '.cache', relpath.replace('/', '__') + '.json')
+        if key and os.path.exists(path[:-2] + '.vo') and os.path.exists(cpath):
+            try:
+                with open(cpath) as f:
+                    c = json.load(f)
+            except Exception:
+                c = {}
+            if c.get('key') == key:
+                out = c.get('out', '')
+                self.obligations += [f'{relpath}:{n}' for n in names]
+                self.discharged += len(names)
+                pa = parse_print_assumptions(out)
+                self.assumptions_out += [f'{relpath}: {x}' for x in pa]
+                self.log(f'proved {relpath}: {len(names)} obligations '
+                         '(unchanged since last checked)')
+                return out
+        rc, out, err, dt = self.coqc(relpath, timeout)
         if rc != 0:
             thm = locate_theorem(src, err)
             if rc == 124:
@@ -209,7 +231,36 @@ class Ctx:
         pa = parse_print_assumptions(out)
         self.assumptions_out += [f'{relpath}: {x}' for x in pa]
         self.log(f'proved {relpath}: {len(names)} obligations in {dt:.1f}s')
+        key = self._fresh_key(relpath, src)
+        if key:
+            os.makedirs(os.path.dirname(cpath), exist_ok=True)
+            tmp = cpath + f'.{os.getpid()}'
+            with open(tmp, 'w') as f:
+                json.dump(dict(key=key, out=out), f)
+            os.replace(tmp, cpath)
         return out
+
+    def _fresh_key(self, relpath, src):
+        """Hash of the source and of the identity (mtime, size) of every
+        compiled file it imports; None if the dependencies are unknown."""
+        import hashlib
+        r = subprocess.run(['coqdep'] + COQ_ARGS[:12] + [relpath], cwd=COQ,
+                           capture_output=True, text=True)
+        h = hashlib.sha256(src.encode())
+        found = False
+        for line in r.stdout.splitlines():
+            if ':' not in line or '.vo' not in line.split(':', 1)[0]:
+                continue
+            found = True
+            for d in sorted(set(line.split(':', 1)[1].split())):
+                if not d.endswith('.vo'):
+                    continue
+                dp = os.path.join(COQ, d)
+                if not os.path.exists(dp):
+                    return None
+                st = os.stat(dp)
+                h.update(f'|{d}:{st.st_mtime_ns}:{st.st_size}'.encode())
+        return h.hexdigest() if found else None
 
     def prove_with_deps(self, relpath, timeout=600):
         """Compile relpath after the GenProofs/Properties files it imports
@@ -265,7 +316,7 @@ class Ctx:
             packs.append(cur)
         files, counts = [], []
         for k, pack in enumerate(packs):
-            rel = f'cases/{self.pid}_{name}_{k}.v'
+            rel = f'cases/{self.pid}_{name}_p{os.getpid()}_{k}.v'
             i = 0
             with open(os.path.join(COQ, rel), 'w') as f:
                 f.write(header + '\n')
@@ -302,7 +353,7 @@ class Ctx:
     def eval_terms(self, name, preamble, terms, timeout=900):
         """Evaluate arbitrary terms; returns the raw printed values."""
         os.makedirs(os.path.join(COQ, 'cases'), exist_ok=True)
-        rel = f'cases/{self.pid}_{name}_show.v'
+        rel = f'cases/{self.pid}_{name}_p{os.getpid()}_show.v'
         with open(os.path.join(COQ, rel), 'w') as f:
             f.write(preamble + '\n')
             for t in terms:
